@@ -188,8 +188,12 @@ Record request := mkReq {
 }.
 
 (* Client.Do.  [clean] is CleanScopes (a parameter so that the pre-fix variant can
-   be plugged in). *)
-Definition do_request (clean : list str -> list str) (cf : config) (c : cc) (rq : request)
+   be plugged in); [parse] is parseChallenge, a parameter: the theorems hold for
+   EVERY total parser (so also for the parts of strconv.Unquote that
+   Model/Challenge.v does not model), the runner instantiates it with
+   [parse_with]. *)
+Definition do_request (clean : list str -> list str) (parse : str -> scheme * params)
+           (cf : config) (c : cc) (rq : request)
            (script : list answer) : list event * cc * result :=
   let f := cf_flavour cf in
   let h := rq_host rq in
@@ -211,10 +215,9 @@ Definition do_request (clean : list str -> list str) (cf : config) (c : cc) (rq 
   | AErr :: _ => ([(s1, AErr)], c, RErr ETransport)
   | A401 hdr :: script1 =>
     let ev1 := (s1, A401 hdr) in
-    match parse_challenge hdr with
-    | ChUnjudged => ([ev1], c, RBad)
-    | Ch SchUnknown _ => ([ev1], c, RResp true)
-    | Ch SchBasic _ =>
+    match parse hdr with
+    | (SchUnknown, _) => ([ev1], c, RResp true)
+    | (SchBasic, _) =>
       match fetch_basic cf h with
       | inl r => ([ev1], c, r)
       | inr tok =>
@@ -224,7 +227,7 @@ Definition do_request (clean : list str -> list str) (cf : config) (c : cc) (rq 
           (ev1 :: evs, c', r)
         else ([ev1], c', RErr ERewind)
       end
-    | Ch SchBearer ps =>
+    | (SchBearer, ps) =>
       let pscope := get_param s_scope ps in
       let scopes :=
         if is_empty pscope then hinted
@@ -272,13 +275,13 @@ Definition do_request (clean : list str -> list str) (cf : config) (c : cc) (rq 
   end.
 
 (* a history of requests sharing one cache *)
-Fixpoint run_history (clean : list str -> list str) (cf : config) (c : cc)
+Fixpoint run_history (clean : list str -> list str) (parse : str -> scheme * params) (cf : config) (c : cc)
          (hist : list (request * list answer)) : list (list event * result) * cc :=
   match hist with
   | [] => ([], c)
   | (rq, script) :: hist' =>
-    let '(evs, c', r) := do_request clean cf c rq script in
-    let (rest, c'') := run_history clean cf c' hist' in
+    let '(evs, c', r) := do_request clean parse cf c rq script in
+    let (rest, c'') := run_history clean parse cf c' hist' in
     ((evs, r) :: rest, c'')
   end.
 
@@ -289,6 +292,38 @@ Fixpoint lookup_cred (tbl : list (host * cred)) (h : host) : cred :=
   | (h', c) :: tbl' => if h =? h' then c else lookup_cred tbl' h
   end.
 
+(* the parser of the runner: Model/Challenge.v where it judges, otherwise the
+   table the case line carries (header -> what the real parseChallenge returned,
+   for headers with escapes / non-ASCII bytes in quoted strings) *)
+Definition parse_total (h : str) : scheme * params :=
+  match parse_challenge h with
+  | ChUnjudged => (SchUnknown, [])
+  | Ch s p => (s, p)
+  end.
+
+Fixpoint parse_lookup (tbl : list (str * (scheme * params))) (h : str) : option (scheme * params) :=
+  match tbl with
+  | [] => None
+  | (h', r) :: tbl' => if str_eqb h h' then Some r else parse_lookup tbl' h
+  end.
+
+Definition parse_with (tbl : list (str * (scheme * params))) (h : str) : scheme * params :=
+  match parse_challenge h with
+  | Ch s p => (s, p)
+  | ChUnjudged => match parse_lookup tbl h with Some r => r | None => (SchUnknown, []) end
+  end.
+
 Definition run_model (fl : flavour) (oauth2 : bool) (tbl : list (host * cred))
+           (ptable : list (str * (scheme * params)))
            (hist : list (request * list answer)) : list (list event * result) :=
-  fst (run_history clean_scopes (mkConfig fl oauth2 (lookup_cred tbl)) [] hist).
+  fst (run_history clean_scopes (parse_with ptable) (mkConfig fl oauth2 (lookup_cred tbl)) [] hist).
+
+(* headers of a script that the model's parser does not judge and the table does not cover *)
+Definition unjudged_header (ptable : list (str * (scheme * params))) (a : answer) : bool :=
+  match a with
+  | A401 h => match parse_challenge h with
+              | ChUnjudged => match parse_lookup ptable h with Some _ => false | None => true end
+              | _ => false
+              end
+  | _ => false
+  end.
